@@ -139,10 +139,83 @@ def run(tier: str) -> int:
                     rep.violation(sig, f"{row['cls']}: {row['message']} (first import {first})", {"case": cases[row["id"]], "first_import": first, "row": row})
     finally:
         shutil.rmtree(tmp, ignore_errors=True)
+    sr, nr = registry_layer(rep, tier)
+    states += sr
+    rep.add(registry_histories=nr)
     rep.add(states=states, transitions=trans, traces_validated_against_impl=nexec + len(rep._distinct), exhaustive=True, first_imports=len(public), classes=len(cat["classes"]) if "cat" in dir() else 0,
             rule="(1) every public module as the first import: model verdict vs fresh interpreter; (2) every configuration enumerated by Serial.tla (class of the introspected catalogue x subset of parameters set to a non-default value x nesting shape) executed in a fresh interpreter for each first-import choice of the tier; distinct = distinct (configuration) / first import")
     rep.assumptions += ["function-local imports and `if TYPE_CHECKING:` blocks do not execute at import time (dropped by the extractor)", "non-default values are chosen per parameter type by the worker's recipes; callables are excepted as the statement says"]
     return rep.finish()
+
+
+def registry_layer(rep, tier):
+    """Registry.tla: every history of register_class / register(...) calls followed by one query, enumerated by
+    TLC, replayed on the real registry (fresh classes per case, so the global table is not disturbed)."""
+    import json as _json
+
+    from quansino import registry
+
+    env = {"REG_LEN": "5"} if tier == "thorough" else {}
+    r = run_tlc("Registry", "MC_Registry.cfg", workers=1, env=env, timeout=1500)
+    if not r.ok:
+        if r.invariant_violated:
+            rep.violation(f"model:registry:{r.invariant_violated[0]}", "TLC: Registry.tla violated", {"tlc": r.out[-2000:]})
+        else:
+            rep.error(f"TLC failed on Registry: {r.out[-1200:]}")
+        return 0, 0
+    n = 0
+    for line in r.out.splitlines():
+        line = line.strip()
+        if not line.startswith('"@@'):
+            continue
+        case = _json.loads(_json.loads(line)[2:])
+        hist = case["hist"]
+        if any(h[0] != "register" for h in hist[:-1]):
+            continue  # queries do not change the registry: only histories whose single query comes last are replayed
+        n += 1
+        tag = f"_reg{n}"
+        B = type("B" + tag, (), {})
+        D = type("D" + tag, (B,), {})
+        X = type("X" + tag, (), {})
+        cls = {"B": B, "D": D, "X": X}
+        name = {"B": "B" + tag, "D": "D" + tag, "X": "X" + tag, "alias": "alias" + tag}
+        back = {v: k for k, v in cls.items()}
+        try:
+            for k, (op, a, b) in enumerate(hist[:-1]):
+                if b == a:  # default name = the class's own name
+                    if k % 2:
+                        registry.register()(cls[a])
+                    else:
+                        registry.register_class(cls[a])
+                elif k % 2:
+                    registry.register(name[b])(cls[a])
+                else:
+                    registry.register_class(cls[a], name[b])
+            op, a, b = hist[-1]
+            try:
+                if op == "get_class":
+                    got = back[registry.get_class(name[a])]
+                elif op == "get_class_name":
+                    got = registry.get_class_name(cls[a])
+                    got = {v: k for k, v in name.items()}.get(got, got)
+                else:
+                    got = back[registry.get_typed_class(name[a], cls[b])]
+            except KeyError:
+                got = "KeyError"
+            except TypeError:
+                got = "TypeError"
+        except Exception as ex:  # noqa: BLE001
+            rep.violation(f"registry:raise:{type(ex).__name__}", f"registry history {hist} raised {ex!r}", {"case": case})
+            continue
+        want = case["out"]
+        if op == "get_class_name" and want in name:
+            pass
+        rep.count(("registry", _json.dumps(hist)), nontrivial=len(hist) > 1)
+        if n % 700 == 1:
+            rep.sample({"registry_history": hist, "expected": want})
+        if got != want:
+            rep.violation(f"registry:{op}", f"after {hist[:-1]} the query {hist[-1]} gives {got!r}; Registry.tla says {want!r}", {"case": case})
+    return r.distinct, n
 
 
 def serial_data(cat) -> str:
